@@ -152,7 +152,7 @@ func init() {
 	reg(&Prop{ID: "C04", Level: "fault_enumeration",
 		Quick:    Tier{Cases: 4800, PerJob: 300, Seconds: 70},
 		Thorough: Tier{Cases: 400000, PerJob: 5000, Seconds: 1500},
-		Rule:     "one case = generated index (0..200 chunks, 1/12 of the cases 250..1050 chunks, sizes <= max, random IDs, arbitrary extra feature flags, SHA512/256 or SHA256 process digest) written with Index.WriteTo; the bytes must parse with the independent caibx parser to the same table (tail marker offsets/sizes included); read back through a fragmenting stream reader, LocalIndexStore, RemoteHTTPIndex+HTTPIndexHandler (also stored through the HTTP client), S3IndexStore against the in-harness S3 endpoint (GetIndex; StoreIndex = multipart upload in 1/4 of these) or SFTPIndexStore against the pkg/sftp server behind the ssh shim (GetIndex and StoreIndex) it must equal what was written; then EVERY strict prefix (stream, files <= 9000 bytes; 700 evenly spaced prefixes above that) or <= 600 evenly spaced prefixes plus the boundary lengths (stores), two swapped offsets, a chunk enlarged beyond max and a flipped digest flag must each be rejected; 1/10 of the cases re-encode a casync-made fixture byte-identically; sub_evaluations = reads; distinct = distinct tapes; non-trivial = a fault was applied; StoreIndex through the local, HTTP and SFTP stores goes over an older, longer file of the same name and must leave exactly the bytes of Index.WriteTo",
+		Rule:     "one case = generated index (0..200 chunks, 1/12 of the cases 250..1050 chunks, sizes <= max, random IDs, arbitrary extra feature flags, SHA512/256 or SHA256 process digest - configured as a plain value, as a pointer or inside a caller's own HashAlgorithm type, 1/6 of the cases each for the latter two) written with Index.WriteTo; the bytes must parse with the independent caibx parser to the same table (tail marker offsets/sizes included); read back through a fragmenting stream reader, LocalIndexStore, RemoteHTTPIndex+HTTPIndexHandler (also stored through the HTTP client), S3IndexStore against the in-harness S3 endpoint (GetIndex; StoreIndex = multipart upload in 1/4 of these) or SFTPIndexStore against the pkg/sftp server behind the ssh shim (GetIndex and StoreIndex) it must equal what was written; then EVERY strict prefix (stream, files <= 9000 bytes; 700 evenly spaced prefixes above that) or <= 600 evenly spaced prefixes plus the boundary lengths (stores), two swapped offsets, a chunk enlarged beyond max and a flipped digest flag must each be rejected; 1/10 of the cases re-encode a casync-made fixture byte-identically; sub_evaluations = reads; distinct = distinct tapes; non-trivial = a fault was applied; StoreIndex through the local, HTTP and SFTP stores goes over an older, longer file of the same name and must leave exactly the bytes of Index.WriteTo",
 		Assumptions: []string{
 			"the round-trip half is a pure function of the index; it runs here as the fault-free configuration of the same harness (DESIGN.md C04 honest limit)",
 			"the console (stdin/stdout) index store is exercised at process level only: 1/25 of the cases run the real `desync list-chunks` and `desync info` on the index file or on standard input (intact: printed table/parameters equal the index; 6 truncations, swapped offsets, oversize chunk, flipped digest flag: exit status must be non-zero) and `desync make -` (bytes on standard output == bytes written to a file == independent chunker and parser)",
